@@ -67,15 +67,14 @@ theorem coord_roundtrip (a : Axis α) (hm : a.StrictMono) (i : Nat) (hi : a.vali
       have := a.lt_of_coord_lt hm hi hlt
       exact hv (a.valid_of_le hj (by omega))
 
-theorem pairOf_spec (a : Axis α) (kernel : α → PositionMatch → Option Nat)
-    (hk : ∀ p m, IsIndex a m p (kernel p m)) (s e : α) (rm : RangeMatch) :
+/-- the pair shape needs the kernel's rule at the two positions it is asked for only -/
+theorem pairOf_spec_at (a : Axis α) (kernel : α → PositionMatch → Option Nat) (s e : α) (rm : RangeMatch)
+    (h1 : IsIndex a .greaterOrEqual s (kernel s .greaterOrEqual)) (h2 : IsIndex a rm.endMatch e (kernel e rm.endMatch)) :
     IsPair a rm s e (pairOf kernel s e rm) := by
   unfold pairOf
   by_cases hes : e < s
   · simp [hes, IsPair]
   · simp only [hes, if_false]
-    have h1 := hk s .greaterOrEqual
-    have h2 := hk e rm.endMatch
     cases hs : kernel s .greaterOrEqual with
     | none => rw [hs] at h1; simp only [IsPair]; exact Or.inr (Or.inl h1)
     | some si =>
@@ -89,6 +88,11 @@ theorem pairOf_spec (a : Axis α) (kernel : α → PositionMatch → Option Nat)
         · show IsPair a rm s e (if si ≤ ei then some (si, ei) else none)
           rw [if_neg hle]; simp only [IsPair]
           exact Or.inr (Or.inr (Or.inr ⟨si, ei, h1, h2, by omega⟩))
+
+theorem pairOf_spec (a : Axis α) (kernel : α → PositionMatch → Option Nat)
+    (hk : ∀ p m, IsIndex a m p (kernel p m)) (s e : α) (rm : RangeMatch) :
+    IsPair a rm s e (pairOf kernel s e rm) :=
+  pairOf_spec_at a kernel s e rm (hk s .greaterOrEqual) (hk e rm.endMatch)
 
 theorem rangePair_eq_pairOf (ticks : List α) (s e : α) (rm : RangeMatch) :
     rangePair ticks s e rm = pairOf (fun p m => getIndex p ticks m) s e rm := by
